@@ -33,7 +33,23 @@ fn observe(workdir: &str, seed: u64, i: u64) -> Value {
     let mut prng = Rng::new(seed, 118, i);
     let inputs = c01::write_inputs(&dir, &case, &mut prng, &Presentation::plain());
     let out = dir.join("out.agc");
-    let created = guarded_loc(|| archive::create_archive(&inputs, &out, &case.params));
+    // create on its own thread under a watchdog: an arithmetic panic inside a worker thread leaves
+    // the other workers at the barrier and the producer blocked — the run never returns
+    let created = {
+        let (tx, rx) = std::sync::mpsc::channel();
+        let (inputs2, out2, params2) = (inputs.clone(), out.clone(), case.params.clone());
+        std::thread::spawn(move || {
+            let r = guarded_loc(|| archive::create_archive(&inputs2, &out2, &params2));
+            let _ = tx.send(r);
+        });
+        match rx.recv_timeout(std::time::Duration::from_secs(300)) {
+            Ok(r) => r,
+            Err(_) => {
+                let loc = crate::props::LAST_PANIC_LOC.lock().map(|g| g.clone()).unwrap_or_default();
+                Err(format!("create did not return within 300 s (hang; last panic location seen in this process: {loc})"))
+            }
+        }
+    };
     let mut v = json!({"index": i, "space": space, "single_file": case.single_file,
         "contigs": case.set.samples.iter().map(|s| s.contigs.len()).sum::<usize>()});
     match created {
@@ -254,8 +270,8 @@ pub fn run(ctx: &mut Ctx) -> Report {
             let Some(v) = v else { continue };
             for key in ["create", "extract", "queries"] {
                 let s = v[key].as_str().unwrap_or("");
-                if s.starts_with("panic") || s.contains("panic") {
-                    let sig = if is_arith(s) { "profile-overflow-panic" } else { "profile-panic" };
+                if s.starts_with("panic") || s.contains("panic") || s.contains("did not return") {
+                    let sig = if s.contains("did not return") { "profile-hang" } else if is_arith(s) { "profile-overflow-panic" } else { "profile-panic" };
                     rep.oracle_fail(sig, &format!("{pname} profile, {key}: {s}"), case.clone());
                 }
             }
